@@ -14,9 +14,15 @@ PROP = dict(
           "flat background with sparse marks, identical rows with marks at the right/left edge) - plus, for `derived`, 1..3 image-producing "
           "operations applied before saving (copy/move assignment into a live image of another size, alpha flag and channel width or into a "
           "default-constructed one, copy/move construction, set_channel_width, set_has_alpha, reverse_horizontal/vertical; every operation "
-          "x (alpha, channel width) x (alpha, channel width) and every ordered pair of operations enumerated), and (container variant, sub-variant "
+          "x (alpha, channel width) x (alpha, channel width) and every ordered pair of operations enumerated), for `large` a sampled image beyond the "
+          "enumerated scope (65..256 per side or one side 1..64, mostly incompressible noise, all alpha / channel-width combinations with 8-bit - where BMP and "
+          "PNG apply - in the majority; two fifths of them with the height chosen so that the scanline data height*(1+width*channels) lies within ~+-300+row/2 "
+          "bytes of a multiple of 32 KiB; a tenth of the `derived` cases start from such an image too), and (container variant, sub-variant "
           "number, width, height, pixel style+seed) for the load side, enumerated over all widths 1..64 / all sub-variants at small "
-          "sizes and drawn at random (rapidcheck) for sizes up to 64x64; each truncation case additionally loads every prefix of the "
+          "sizes and drawn at random (rapidcheck) for sizes up to 64x64; every image LOADED from an input variant is then treated as an image: it must "
+          "compare equal (operator== / != in both operand orders) to an image constructed with the same geometry, samples and sample range (sized constructor + "
+          "write_pixel, or the raw-data constructor with max_value = the file's MAXVAL) and goes through the complete save-side oracle (PPM header declares "
+          "exactly that range, PPM/BMP/PNG read back by the independent decoders, reload identity incl. operator==); each truncation case additionally loads every prefix of the "
           "file (files <= 1 KiB quick / 2 KiB thorough) or all header prefixes, +-1 around each row start and the last 16 bytes. "
           "Non-trivial: width mod 4 != 0, or alpha, or channel width > 8, or an image produced by an operation (derived), or a container variant phosg's own save() never writes "
           "(grayscale, reordered/padded headers, other maxval, V4/V5/56-byte BMP headers, permuted masks, top-down rows, data-offset gap). "
@@ -28,6 +34,9 @@ PROP = dict(
         "P6/P5 headers end in a single space, tab or newline; '#' comment lines and a carriage return as the final header byte are not generated",
         "BI_BITFIELDS masks live inside a 56/108/124-byte info header (a 40-byte header followed by separate masks is not generated)",
         "malformed headers that are not prefixes of valid files are outside the property",
+        "an image loaded from a Netpbm file keeps the file's MAXVAL as its sample range (that is what the format defines a sample to mean) and writes it back into the PPM it saves; "
+        "an 8-bit image whose range is below 255 is not exported to BMP/PNG by the check (whether it should be rescaled is left open)",
+        "images larger than 64 per side are sampled (up to 256), not enumerated",
         "an image produced by copy/move/set_channel_width/set_has_alpha/reverse is described by its accessors and raw sample buffer after the "
         "operations (what the operations do to the pixels is not asserted here); it must then save and reload exactly like a freshly drawn image",
         "leak detection = sanitizer allocator byte accounting around every load (confirmed by repetition) plus a LeakSanitizer pass after each truncation case",
